@@ -125,6 +125,12 @@ def run(ck):
     rng = random.Random(ck.seed * 7919 + 7)
     nrng = np.random.default_rng(ck.seed + 7)
     fails = []
+    from harness import simops_corr as sc
+    certs = []
+    for i in range(ck.scale(30, 600)):
+        c, a = cg.gen_circuit(rng)
+        certs.append((c, rng.random() < 0.6, rng.random() < 0.5))
+    sc.run_certs(ck, certs, 'schedule')
     for i in range(ck.scale(40, 1200)):
         try:
             desc, what = logic_perm(rng, nrng)
